@@ -11,6 +11,7 @@ package simrt
 
 import (
 	"fmt"
+	"os"
 	"runtime"
 	"time"
 )
@@ -179,6 +180,8 @@ type Sim struct {
 	frozen []bool
 }
 
+var debugSteps = os.Getenv("SIMRT_DEBUG") != ""
+
 // S is the simulator of the running episode (nil: primitives pass through).
 var S *Sim
 
@@ -263,6 +266,9 @@ func (s *Sim) Run(root func()) Result {
 	deadline := time.Now().Add(2 * time.Second)
 	for s.live > 0 && time.Now().Before(deadline) {
 		time.Sleep(50 * time.Microsecond)
+	}
+	if debugSteps {
+		println("simrt: episode end verdict", s.verdict.String(), "steps", s.steps, "live", s.live, "tasks", len(s.tasks))
 	}
 	S = nil
 	return Result{Verdict: s.verdict, Clause: s.failClause, Msg: s.failMsg, Steps: s.steps, Tape: s.tape, Tasks: s.tasks, Now: time.Duration(s.now)}
@@ -451,7 +457,7 @@ func Chance(pct int) bool {
 	if pct >= 100 {
 		return true
 	}
-	return Choose(100) < pct
+	return Choose(100) >= 100-pct // a zero choice means "no fault"
 }
 
 // Step returns the global event sequence number.
@@ -608,6 +614,9 @@ func (s *Sim) schedule(exiting bool) {
 			runtime.Goexit()
 		}
 	}
+	if debugSteps && s.steps%50000 == 0 {
+		println("simrt: steps", s.steps, "max", s.opt.MaxSteps, "decisions", s.decisions, "tasks", len(s.tasks), "timers", len(s.timers), "tape", len(s.tape), "now", s.now)
+	}
 	if s.steps > s.opt.MaxSteps {
 		s.finish(VStepCap, "stepcap", "step budget exhausted")
 		if exiting {
@@ -653,7 +662,10 @@ func hashName(n string) uint32 {
 //
 //go:norace
 func (s *Sim) pick(me *Task, exiting bool) *Task {
-	for {
+	for spin := 0; ; spin++ {
+		if spin > 1000000 {
+			panic("simrt: pick is spinning")
+		}
 		var run [64]*Task
 		rs := run[:0]
 		var quiesce *Task
@@ -687,7 +699,8 @@ func (s *Sim) pick(me *Task, exiting bool) *Task {
 		}
 		s.decisions++
 		// spontaneous tick
-		if s.opt.TickWeight > 0 && s.hasTicker() && s.choose(100) < s.opt.TickWeight {
+		// (a zero choice always means "nothing unusual": no tick, no fault)
+		if s.opt.TickWeight > 0 && s.hasTicker() && s.choose(100) >= 100-s.opt.TickWeight {
 			s.fireNextTicker()
 			if len(s.fireQ) > 0 {
 				return s.clockTask
